@@ -785,7 +785,8 @@ func init() {
 		pcs := []pc{{1, 0, 0, 2, 0}, {1, 1, 0, 2, 0}, {2, 0, 0, 2, 0}, {1, 0, 1, 2, 0}, {1, 0, 1, 2, 1}, {1, 0, 0, 2, 1}}
 		if tier == "thorough" {
 			pcs = []pc{{1, 0, 0, 3, 0}, {1, 1, 0, 3, 0}, {2, 0, 0, 3, 0}, {1, 0, 1, 3, 0}, {2, 1, 0, 2, 0}, {2, 0, 1, 2, 0}, {3, 0, 0, 2, 0},
-				{1, 0, 1, 3, 1}, {1, 0, 0, 3, 1}, {2, 0, 1, 2, 1}, {1, 1, 0, 2, 1}}
+				{1, 0, 1, 3, 1}, {1, 0, 0, 3, 1}, {2, 0, 1, 1, 1}, {1, 1, 0, 2, 1}}
+			// (two writers on the full buffer at pre-emption bound 2 ran past 30 minutes: registered at bound 1)
 		}
 		_ = pre
 		for _, x := range pcs {
